@@ -728,6 +728,43 @@ class STensor:
             vals.append(t.store[t.idx[off]])
         return STensor.from_flat(vals, new_shape, self.dtype)
 
+    def roll(self, shifts, dims=None) -> "STensor":
+        if dims is None:
+            return self.flatten().roll(shifts, 0).reshape(self.shape)
+        sh = list(shifts) if isinstance(shifts, (tuple, list)) else [shifts]
+        dm = list(dims) if isinstance(dims, (tuple, list)) else [dims]
+        t = self
+        for s_, d in zip(sh, dm):
+            d %= t.ndim
+            n = t.shape[d]
+            s_ = simplify(s_) % n if n else 0
+            if s_:
+                t = cat([t.narrow(d, n - s_, s_), t.narrow(d, 0, n - s_)], d)
+        return t.clone() if t is self else t
+
+    def index_select(self, dim, index) -> "STensor":
+        ix = [simplify(v) for v in (index.flat() if isinstance(index, STensor) else index)]
+        return cat([self.narrow(dim, i, 1) for i in ix], dim)
+
+    def tensor_split(self, sections, dim=0):
+        dim %= self.ndim
+        n = self.shape[dim]
+        if isinstance(sections, STensor):
+            sections = sections.tolist()
+        if isinstance(sections, int):
+            k, r = divmod(n, sections)
+            sizes = [k + 1] * r + [k] * (sections - r)
+            out, s0 = [], 0
+            for z in sizes:
+                out.append(self.narrow(dim, s0, z))
+                s0 += z
+            return tuple(out)
+        idx = [0] + [min(max(simplify(i), 0), n) for i in sections] + [n]
+        return tuple(self.narrow(dim, a, max(b - a, 0)) for a, b in zip(idx[:-1], idx[1:]))
+
+    def split_with_sizes(self, sizes, dim=0):
+        return self.split(list(sizes), dim)
+
     def tile(self, *reps) -> "STensor":
         reps = list(_shape_args(reps))
         if len(reps) < self.ndim:
